@@ -177,6 +177,9 @@ def vivo_items(ctx, n, check, sims=('step', 'fast'), id0=1, hooks_bias=False):
         if i % 16 in (6, 7):    # orders cancelled while queued / half-filled ladders cancelled
             it['strategy'] = 'cancel_race'
             it['cfg'] = futures_config(lev=2, fee=0.0, balance=100000)
+        if i % 16 in (14, 15):  # market orders submitted while a market order is being filled
+            it['strategy'] = 'nested_market'
+            it['cfg'] = futures_config(lev=2, fee=0.0, balance=100000)
         if i % 8 in (4, 5):     # two routes on one exchange: matching must stay per symbol
             it['symbols'] = ['BTC-USDT', 'ETH-USDT']
             it['id'] = 100000 + i
@@ -262,7 +265,7 @@ def run(ctx):
     fams = []
     # ---------------- (a) exhaustive scenario families against the real functions
     if ctx.quick:
-        plan = [('step', (3, 2, 1, 2), 1), ('fast', (3, 2, 0, 2), 2)]
+        plan = [('step', (3, 2, 1, 2), 1), ('step', (4, 2, 1, 1), 1), ('fast', (3, 2, 0, 2), 2)]
     else:
         plan = [('step', (4, 3, 1, 2), 1), ('step', (3, 3, 1, 3), 1), ('step', (3, 2, 2, 2), 1), ('fast', (3, 3, 0, 2), 2),
                 ('fast', (3, 2, 1, 2), 2)]
